@@ -101,6 +101,21 @@ CLAIMED = {
         note='recompute iterates a Python set: order is arbitrary, compared as a multiset per operation',
         technique='Coq proof (reachability closure, fold over forced objects) + differential histories via vm_compute',
         ref='DESIGN.md section 5, C07'),
+    'C06': dict(
+        category='other',
+        text='Proof of the logic taskchain itself adds around the third-party serializers - json-lines framing reads every '
+             'list of items back item by item in order (items = newline-free text without leading/trailing whitespace, as '
+             'orjson produces); Data.value refuses exactly None and returns every other value, the falsy ones included; '
+             'lists of arrays are read back in numeric order whatever the directory order; loading changes no stored file - '
+             'plus translation validation of the serializers: for JSON values (nesting, unicode incl. astral and NUL, '
+             'boundary ints and floats, empty containers), numpy arrays (16 dtypes, 0-d to 3-d, empty, non-contiguous), '
+             'DataFrames/Series, generated sequences, lists of >10 arrays and directories, a chain computes the value in one '
+             'process and a later chain loads it in a fresh process; type-/dtype-/shape-/order-sensitive comparison and '
+             'file hashes before/after the load.',
+        note='orjson, numpy, pandas/pickle are exercised, not verified; dict key order is not compared (dict equality); '
+             'integer dict keys and values outside the 64-bit range are outside the stated domain',
+        technique='Coq proof of the framing/guard logic + differential round trips across processes (translation validation)',
+        ref='DESIGN.md section 5, C06'),
     'C08': dict(
         category='proof',
         text='Theorems about the chain-construction model: a config contributes exactly its listed, non-abstract, '
